@@ -42,7 +42,9 @@ func (l *List) MultiUse(st funcGen.Stack[Value]) (Map, error) {
 			pr := prList[i]
 			go mu.runConsumer(st.Derive(), pr, done)
 		}
-		err := run(l.iterable(st))
+		// a panic raised by the source must reach the consumers as an error,
+		// otherwise their goroutines wait forever for the next item
+		err := run(recoveringProducer(l.iterable(st)))
 
 		if err != nil {
 			return EmptyMap, err
